@@ -29,6 +29,22 @@ CLAIMED = {
          "Decides for all inputs and all 52 registered handlers: every path to a CacheDB write passes a successful witness check and a successful identity-state check (valid for modification, never-existed for registration, so revoked ids stay revoked); group verification checks every listed signer; revoked / non-auth keys never pass. Does not decide that the witnessed key is the configured one beyond these guards.",
          "verifyGroupSignature's signer loop is non-empty when verifyThreshold passed (table entry); handlers are those registered in RegisterIDContract.",
          "DESIGN.md §4 C45"),
+ "C01": ("ordered must-pass-through sequences on SSA CFGs (A3) + call-graph confinement (A4) + a linear range rule on recoverStore's loop",
+         "Decides, for every crash point, the structural mechanism recovery relies on: commit order block->event->state->height with every error aborting; batches reach LevelDB only in BatchCommit; save helpers never write directly; init runs recovery; recoverStore replays execute/save/commit in order for exactly heights stateHeight+1..blockHeight and never writes the block store; merkle file opened consistently. Does not decide that replay recomputes identical state.",
+         "VTA call graph; go/ssa CFG; LevelDB's own batch atomicity.",
+         "DESIGN.md §4 C01"),
+ "C05": ("guard (A2), sequence (A3), same-value pairing (A13) on tx handlers + call-graph confinement of CacheDB.Commit (A4)",
+         "Decides structural necessary conditions on all paths: per-tx cache reset; commit only after successful execution and charging, no failure after commit; overlay touched only for SetError/failure fee; failure fee charged on a fresh cache and reported as the charged value; contract execution can never reach CacheDB.Commit. Does not decide numeric fee equality beyond same-value.",
+         "VTA call graph with eventbus/log cut; handlers are those in tx_handler.go.",
+         "DESIGN.md §4 C05"),
+ "C32": ("guard analysis (A2) with all-checks-fail abstract interpretation on verifyHeader",
+         "Decides for all headers: acceptance needs VerifyMultiSignature over header.Hash()/Bookkeepers/SigData; every listed key is a member of the governing config; the count compared with C+1 is the size of a set keyed by key id; the member table is only updated after signature verification. Does NOT decide the magnitude of the verified-signature threshold m relative to C+1 (arithmetic).",
+         "Side conditions: non-genesis header, vbft consensus type for the vbft clauses.",
+         "DESIGN.md §4 C32"),
+ "C39": ("guard analysis (A2) on the block intake path + call-graph confinement of executeBlock (A4) + verifyHeader rules",
+         "Decides 'rejected implies no effect' structurally for every block: verifyHeader before any ledger effect in AddBlock/SubmitBlock/AddHeader; state-root comparison before submitBlock for non-empty blocks; block-root comparison before the first store effect; verifyHeader mutates only after signature verification; executeBlock reaches no persistent write. Transaction-root check is C20.",
+         "Empty blocks skip the state-root comparison by design; genesis skips the block-root comparison.",
+         "DESIGN.md §4 C39"),
 }
 
 NOT_APPLICABLE = {
